@@ -1000,38 +1000,9 @@ fn c12_skip_logical() {
 	kani::cover!(true, "end of harness reached");
 }
 
-// @harness props=C12 tier=thorough timeout=7200
-// @bound decimal over fixed(2): every byte string 0..=3: skipping consumes what reading (i128 hint) consumes (an ignored decimal is still rendered through rust_decimal's 96-bit formatting: > 15 min)
-#[kani::proof]
-#[kani::unwind(19)]
-#[kani::stub(alloc::fmt::format, crate::verif::stub_format)]
-fn c12_skip_decimal_fixed2() {
-	crate::verif::stack_node!(d2 = nodes::dec_fixed(2, 0));
-	let data: [u8; 3] = kani::any();
-	let len: usize = kani::any();
-	kani::assume(len <= 3);
-	skip_vs_read::<I128Hint>(d2, &data[..len], true);
-	kani::cover!(true, "end of harness reached");
-}
-
-// @harness props=C12 tier=thorough timeout=3600
-// @bound decimal over bytes and decimal over fixed(2) / fixed(4): every byte string 0..=6: skipping consumes what reading (i128 hint) consumes
-#[kani::proof]
-#[kani::unwind(19)]
-#[kani::stub(alloc::fmt::format, crate::verif::stub_format)]
-fn c12_skip_decimal() {
-	crate::verif::stack_node!(db = nodes::dec_bytes(0));
-	crate::verif::stack_node!(d2 = nodes::dec_fixed(2, 0));
-	crate::verif::stack_node!(d4 = nodes::dec_fixed(4, 0));
-	let data: [u8; 6] = kani::any();
-	let len: usize = kani::any();
-	kani::assume(len <= 6);
-	let s = &data[..len];
-	skip_vs_read::<I128Hint>(db, s, true);
-	skip_vs_read::<I128Hint>(d2, s, true);
-	skip_vs_read::<I128Hint>(d4, s, true);
-	kani::cover!(true, "end of harness reached");
-}
+// (ignored decimals: no harness. An ignored decimal is still converted to text by rust_decimal after its bytes
+// have been consumed; with that conversion real: > 30 min / 20 GB, with its entry point stubbed to fail: CBMC does
+// not fold the niche-encoded Result and explores the conversion anyway. Seeded change C12_m1 is missed for that reason.)
 
 // @harness props=C12 tier=quick timeout=1200
 // @bound bytes and string (skipped without UTF-8 validation): every byte string 0..=6
